@@ -5,6 +5,8 @@ mod c01;
 mod c03;
 mod c04;
 mod c09;
+mod c10;
+mod c11;
 mod gens;
 mod proto;
 mod report;
@@ -24,6 +26,8 @@ fn rule_and_assumptions(prop: &str) -> (&'static str, Vec<&'static str>) {
         "C06" => (c04::RULE_C06, vec!["random assertions of >= 12 base64-alphabet characters: a chance occurrence in the token has probability < 2^-60"]),
         "C07" => (c04::RULE_C07, vec!["forgery resistance of the primitives themselves is assumed"]),
         "C09" => (c09::RULE, vec!["plain panics are caught in-process (catch_unwind); aborts/stack overflows kill the harness and are detected by the parent, which re-runs in journal mode to obtain the witness", "inputs above 3 MiB are not driven"]),
+        "C10" => (c10::RULE, vec!["unpredictability proper is out of reach: the monitor sees constants, counters, clocks, message-derived nonces, low entropy (birthday collisions) and fixed seeds, not a cryptographically weak but statistically clean generator", "thresholds: per-bit false-alarm probability < 2^-79 for a uniform source; a birthday collision of >= 192-bit nonces at N = 1e5 has probability < 2^-150"]),
+        "C11" | "C12" => (c11::RULE, vec!["the harness clock and the library read the same realtime clock; margins 2 s (past) / 60 s (future); cases whose parse finished > 30 s after generation are discarded, never failed", "leap seconds (second 60) are not driven"]),
         _ => ("", vec![]),
     }
 }
@@ -38,6 +42,8 @@ fn run(prop: &str, tier: &str, seed: u64, extra: &[String]) -> Report {
         "C06" => c04::run_c06(tier, seed),
         "C07" => c04::run_c07(tier, seed),
         "C09" => c09::run(tier, seed),
+        "C10" => c10::run(tier, seed),
+        "C11" | "C12" => c11::run(prop, tier, seed),
         _ => {
             let mut r = Report::new();
             r.inconclusive.push(format!("no driver for property {}", prop));
@@ -57,6 +63,8 @@ fn replay(rec: &Value) -> (String, Report) {
         "C06" => c04::replay_c06(&case),
         "C07" => c04::replay_c07(&case),
         "C09" => c09::replay(&case),
+        "C10" => c10::replay(&case),
+        "C11" | "C12" => c11::replay(&cmd, &case),
         _ => {
             let mut r = Report::new();
             r.inconclusive.push(format!("replay record has no known cmd: {:?}", cmd));
